@@ -377,6 +377,7 @@ impl Prop for C03 {
         vec![
             Part { name: "random".into(), strategy: s, cases: tier.pick(250_000, 5_000_000) },
             Part { name: "many-groups".into(), strategy: s2, cases: tier.pick(40_000, 500_000) },
+            Part { name: "scaled".into(), strategy: super::c01::scaled_part(&cfg, "is"), cases: tier.pick(30_000, 400_000) },
             Part {
                 name: "nested-groups".into(),
                 strategy: (nested_groups(), gen::raw_inputs(8, 6)).prop_map(|(node, inputs)| AstCase { node, flags: String::new(), inputs: Inputs::Raw(inputs) }).boxed(),
